@@ -10,6 +10,19 @@ def handle : Handler := fun op a =>
       let sizes ← getNats a "sizes"
       let b ← getNat a "b"
       return Json.mkObj [("model", jBins (binnify sizes b)), ("spec", jBins (binnifySpecFrom 0 sizes b))]
+  | "C20.regrid" => some do
+      -- binnify with b0, read the sizes back from the table, binnify those with b (theorem binnify_regrid: = `direct`)
+      let sizes ← getNats a "sizes"
+      let b0 ← getNat a "b0"
+      let b ← getNat a "b"
+      let bins0 := binnify sizes b0
+      let back := (getChromsizes bins0).map Prod.snd
+      return Json.mkObj [("bins0", jBins bins0), ("spec0", jBins (binnifySpecFrom 0 sizes b0)),
+        ("sizes_back", jList jNat back),
+        ("binsize0", jOpt jNat (getBinsize bins0)),
+        ("uniform0", Json.bool ((groups bins0).all (fun g => decide (UniformChrom b0 g)))),
+        ("regrid", jBins (binnify back b)), ("direct", jBins (binnify sizes b)),
+        ("spec", jBins (binnifySpecFrom 0 sizes b))]
   | "C20.bininfo" => some do
       let bins ← getBins a "bins"
       let gs := groups bins
